@@ -26,8 +26,8 @@ STATUS = {
  "C15": ("table_pinned over the crate table REGENERATED from add_rust_crate on every run, all_pinned, unknown_refused, deps_exact, names_nodup; json_trigger_found_everywhere / async_trigger_found_everywhere (Tool/Scanners: every walker step is one the scanner follows), json_trigger_was_missed witness", "ProjectGenerator + `incan build` (stub cargo) + trigger positions (json_stringify in 40 statement / expression / owner positions; serde derives in every decorator / list / declaration position); scanner sweep: model scans = real detect_*_usage with a trigger at every expression position of ~200 programs", "exactness, pinning, refs ⊆ declared; every placement of serde / async / web over the entry file and two dependency modules"),
  "C16": ("verdict_truthful, skip_not_run, xfail_inverts, filter_exact, all_selected_reported, exit_iff_failure, counts_match, collect_complete / collect_sound / collect_length (discovery over several files), first_of_name_hides_a_failure witness (Props/C16, Tool/TestRunner)", "real `incan test` on generated files (every executed test through cargo test)", "ground truth of the test bodies (9 ways to fail: assert, assert_eq / ne / true / false, fail, index, division by zero, unwrap of None), -k with and without --slow over matching slow tests, -x, four @skip spellings, the same test name in two files, nested directories and a symlinked directory, test bodies printing lines that look like the harness's own verdicts, runs whose only blemish is an unexpected pass"),
  "C17": ("construction_validated_partial, rejected_argument_stops, own_methods_exempt, other_methods_checked, select_sound / select_from_underlying / select_single, nominal, alias_bypasses witness (Props/C17, Sem/Newtype)", "compiled programs: 11 fixed declaration shapes + generated ones (1-3 methods, hook-shaped or near misses, hook-like and other names) × 23 sites (incl. the payload of another newtype as the argument, list elements, f-strings) × values; 6 underlying types", "hook enforced outside own methods; mixing newtypes rejected at 26 sites (annotations, return, argument, kwarg, default, method argument, field, append / insert / extend / index / dict store, Option / Result / tuple / comprehension / match arm)"),
- "C18": ("converges for all interleavings (ticket protocol); 3 counter-examples for the old protocol; save_with_ticket_loses_newer_version and per_document_tickets_resurrect_old_text witnesses; open_dependency_overrides_disk", "event-log replay (histories with opens, changes, closes and interleaved didSave notifications); importer diagnostics with a dependency text in the editor vs on disk", "hover = latest after quiescence; dependency scenarios must be sensitive"),
- "C19": ("roundtrip, strict_mono, counting, range_wellformed, terminal_line_agrees, terminal_col_agrees (unconditional since the character-column fix; old_terminal_col_counted_bytes keeps the pre-fix witness)", "5 streams, exhaustive small documents over a, é, €, 😀, LF, CR, TAB; rendered caret line", "counting in Python"),
+ "C18": ("converges for all interleavings (ticket protocol); 3 counter-examples for the old protocol; save_with_ticket_loses_newer_version and per_document_tickets_resurrect_old_text witnesses; open_dependency_overrides_disk", "event-log replay (histories with opens, changes, closes and interleaved didSave notifications; texts that parse, fail in the parser or fail in the lexer); importer diagnostics with a dependency text in the editor vs on disk", "hover = latest after quiescence; dependency scenarios must be sensitive"),
+ "C19": ("roundtrip, strict_mono, counting, range_wellformed, terminal_line_agrees, terminal_col_agrees (unconditional since the character-column fix; old_terminal_col_counted_bytes keeps the pre-fix witness)", "5 streams, exhaustive small documents over a, é, €, 😀, LF, CR, TAB; rendered caret line; the whole rendering (caret padding, underline length) for every span, multi-line and past-the-end spans included", "counting in Python"),
  "C20": ("roundtrip (mutual, any depth), json_field_names, type_mapping, eq_iff_structural, eq_fields, ord_lexicographic, cmpV_swap (mutual, any depth), lt_iff_gt, cmpV_refl_of_eq, hash_respects_eq, derives_closed, derives_kept, chain_fields_in_declaration_order / chain_lookup (inherited fields, Props/C20, Sem/Derive)", "compiled programs: json_stringify + from_json, six comparison operators, Dict keys, clone (fields declared on one model/class or over a chain of 2-3 classes); emitted #[derive] list for subsets", "Python json / tuple order; rustc supertrait closure"),
 }
 
@@ -181,8 +181,18 @@ __R4TEXT__""")
     miss4 = [m["seed_id"] for m in r4 if str(m.get("detected_by", "")).startswith("MISSED")]
     r4text = ""
     if r4:
-        r4text = ("\nRound 4 (seeds `-7`, `-8`, eight properties): " + str(len(r4)) + " stored, " + str(len(miss4)) + " MISSED at first ("
-                  + (", ".join(miss4) or "none") + "); what was strengthened is in each `meta.json`.\n")
+        r4text = ("\nRound 4 (seeds `-7`, `-8`): " + str(len(r4)) + " stored, " + str(len(miss4)) + " MISSED at first ("
+                  + (", ".join(miss4) or "none") + "). The pattern of round 3 repeats: the theorems and the correspondence held, the holes were in what "
+                  "the generators reach — boundary integers and filtered comprehensions in compiled programs (C01), fields passed to functions and tuple "
+                  "arity (C02), slice / condition / operand rules (C03), mixed comparisons, exponent kinds and frozen collections in consts (C06, C07), "
+                  "nesting deeper than 8 levels (C08 / C09), multi-byte comments (C10), arity of built-ins and unpacking (C11), paths relative to the "
+                  "working directory (C12), payload variants and multi-file names (C13), bare use and pairs of imports (C14), features spread over three "
+                  "modules (C15), output that imitates the harness and runs whose only blemish is an XPASS (C16), argument forms of a construction (C17), "
+                  "texts that do not lex (C18). Each was answered in the generator and, where a mechanism had no model, by one (Sem/Comprehension, "
+                  "defaultErrors, bareKnown, the EOF-tail theorems); what was strengthened is in each `meta.json`. Widening again exposed defects of the "
+                  "unchanged tree, repaired: string comparison helpers moving their operands, `and` / `or` on non-bools and `for` over a number accepted, "
+                  "`run(port=…)` rewritten on user classes, `__eq__` parameter names, keyword-named imports, fixture and directory order, `**` on an "
+                  "integer variable, blanks inside f-string interpolations.\n")
     out[-1] = out[-1].replace("__R4TEXT__", r4text)
     out[-1] = out[-1].replace("__R2__", str(len(r2))).replace("__R2MISSLIST__", ", ".join(miss)).replace("__R2MISS__", str(len(miss)))
     out.append("""## Appendix E — hooks
